@@ -379,6 +379,11 @@ def witness_case(name):
         return (dict(BASE, lq=name.endswith("lq"), window=1, features="centroids", scoring="euclidean_dist", flow=True,
                      blank=[1, 2]),
                 [[D(10, 40, 40), D(11, 100, 90)], [D(20, 42, 41), D(21, 99, 92)], [D(30, 44, 42), D(31, 98, 94)]])
+    if name == "nan_instance_fw":
+        # no optical flow: the second frame's only detection has no visible keypoint, its centroid is NaN, the 1 x 1
+        # score matrix is NaN, the Hungarian matcher returns no pair
+        return (dict(BASE, features="centroids", scoring="euclidean_dist"),
+                [[D(10, 0, 0)], [dict(D(20, 1, 0), nan=[0, 1, 2])]])
     if name == "one_animal_fw":
         return dict(BASE), WITNESS["one_animal"]
     if name == "one_animal_lq":
@@ -425,10 +430,17 @@ def detect_fixes():
     res["iii_scores"] = not any("raises" in r for r in recs)
     cfg, hist, recs = go("max_tracks_exceeded")
     res["cap"] = not any("raises" in r for r in recs)
-    cfg, hist, recs = go("flow_all_nan_fw")
-    # repaired = the third frame (all scores NaN) still returns both detections with tracks
-    res["iv"] = len(recs) == 3 and all(frame_oracle(fr, r, 0, cfg, {"cap": res["cap"]}) is None for fr, r in zip(hist, recs))
-    res["iv_witness_all_nan"] = bool(len(recs) == 3 and "scores" in recs[2] and impl()["np"].isnan(recs[2]["scores"]).all())
+    # F4iv: a witness only speaks if it really produces a non-empty all-NaN score matrix on the code under test; the
+    # code counts as repaired if on such a call every above-threshold detection still gets a track
+    np = impl()["np"]
+    verdicts = []
+    for name in ("flow_all_nan_fw", "nan_instance_fw"):
+        cfg, hist, recs = go(name)
+        for fr, r in zip(hist, recs):
+            if "scores" in r and r["scores"].size > 0 and np.isnan(r["scores"]).all() and r.get("answer") == []:
+                verdicts.append(frame_oracle(fr, r, 0, cfg, {"cap": res["cap"]}) is None)
+    res["iv"] = bool(verdicts) and all(verdicts)
+    res["iv_witness_all_nan"] = len(verdicts)
     return res, details
 
 
